@@ -721,6 +721,16 @@ func init() {
 			sb := ex.strBytes(s)[:p.Len()]
 			return ex.strEq(ex.mkString(sb), p)
 		},
+		// text/template cannot be encoded.  Contract stub for the writer harnesses: executing a template
+		// writes some text to the destination in one Write call and returns that call's error.  The
+		// text is TEMPLATE_<name> bytes of 'x' (harness parameter, default 24): only its length and
+		// the propagation of the writer's error are meaningful, never its content.
+		"(*text/template.Template).ExecuteTemplate": func(ex *Exec, fn *ssa.Function, a []Value) Value {
+			return templateStub(ex, a[1], ex.argStr(a[2]))
+		},
+		"(*text/template.Template).Execute": func(ex *Exec, fn *ssa.Function, a []Value) Value {
+			return templateStub(ex, a[1], "all")
+		},
 		"internal/bytealg.IndexByteString": func(ex *Exec, fn *ssa.Function, a []Value) Value {
 			return ex.indexByte(ex.strBytes(a[0].(StringV)), a[1].(*Term))
 		},
@@ -1119,4 +1129,22 @@ func (ex *Exec) indexByte(bs []*Term, c *Term) Value {
 		}
 	}
 	return ex.st.BVs(64, -1)
+}
+
+func templateStub(ex *Exec, w Value, name string) Value {
+	n := 24
+	if v, ok := params["TEMPLATE_"+name]; ok {
+		n = v
+	}
+	ex.w.note("stub: text/template execution replaced by a contract (writes TEMPLATE_<name> placeholder bytes in one Write call, returns its error)")
+	bs := make([]*Term, n)
+	for i := range bs {
+		bs[i] = ex.st.BV(8, 'x')
+	}
+	r := ex.writeTo(w, ex.newByteSlice(bs))
+	if tv, ok := r.(TupleV); ok && len(tv) == 2 {
+		return tv[1]
+	}
+	ex.unsupported("Write method with an unexpected result shape")
+	return nil
 }
